@@ -14,6 +14,8 @@ source_for(const std::string &profile, const std::string &prop, int tier)
                 // C12: one run in four exercises the synchronous burst entry points with invalid jobs
                 ProfileCfg ps = profile_by_name("reject_sync", prop, tier);
                 s.make = [pc, ps](uint64_t run_seed, uint64_t idx) {
+                        if (idx % 6 == 5)
+                                return gen_plan_dmisuse(pc, run_seed); // direct-API functions with one bad argument
                         return (idx % 4 == 3) ? gen_plan_entry(ps, run_seed) : gen_plan(pc, run_seed);
                 };
         }
